@@ -453,9 +453,6 @@ func deferStream(c *hx.Ctx) {
 			for _, prot := range protects {
 				for _, nest := range nested {
 					count++
-					if c.Quick() && count%2 == int(c.Seed%2) {
-						continue
-					}
 					macro := `{% macro Footer %}` + prot + foot + `{% end %}`
 					deferStmt := `{% defer Footer() %}`
 					if nest { // the cleanup is deferred from inside another macro that writes the body
